@@ -15,7 +15,7 @@ func init() {
 
 func init() {
 	if os.Getenv("C12_COUNTS") != "" {
-		for _, a := range []*alphabet{alphaFull, alphaMid, alphaSmall} {
+		for _, a := range []*alphabet{alphaFull, alphaMid, alphaSmall, alphaTiny} {
 			println(a.name)
 			for n, c := range a.count(7) {
 				println(n, c)
